@@ -572,3 +572,31 @@ Lemma C05_chunked_overrides_cl_lemma :
     te_chunked te = true ->
     body_read_env s buf maxb cl te = body_read_chunked s buf maxb.
 Proof. intros s buf maxb cl te H. unfold body_read_env. now rewrite H. Qed.
+
+(* ---- raw Content-Length under a chunked coding; sequences of requests ---- *)
+Lemma C05_chunked_overrides_raw_cl_lemma :
+  forall (s : stream) (buf : nat) (maxb : option nat) (raw : option (list N)) (te : list N) (cl : Z),
+    te_chunked te = true -> content_length_raw raw = Some cl ->
+    body_read_raw s buf maxb raw te = Some (body_read_chunked s buf maxb).
+Proof.
+  intros s buf maxb raw te cl Hte Hcl. unfold body_read_raw. rewrite Hcl.
+  f_equal. now apply C05_chunked_overrides_cl_lemma.
+Qed.
+
+Lemma C05_cl_not_int_lemma :
+  exists (raw te : list N),
+    te_chunked te = true /\
+    forall s buf maxb, body_read_raw s buf maxb (Some raw) te = None.
+Proof.
+  exists [97; 98; 99]%N, s_chunked. split; [vm_compute; reflexivity|].
+  intros s buf maxb. unfold body_read_raw. now vm_compute content_length_raw.
+Qed.
+
+Lemma nth_map_app {A B} (f : A -> B) (pre post : list A) (x : A) (d : B) :
+  nth (length pre) (map f (pre ++ x :: post)) d = f x.
+Proof. rewrite map_app, app_nth2 by (rewrite map_length; lia). rewrite map_length, Nat.sub_diag. reflexivity. Qed.
+
+Lemma C05_seq_lemma :
+  forall (pre post : list (list Z)) (x : list Z),
+    nth (length pre) (run_seq (pre ++ x :: post)) [] = corr_C05_one x.
+Proof. intros. apply nth_map_app. Qed.
